@@ -43,6 +43,12 @@ pub struct BitMachine {
     write: Vec<Frame>,
     /// Acceptable source type
     source_ty: Arc<Final>,
+    /// Largest value `next_frame_start` ever had (verification hook)
+    #[cfg(feature = "verif-hooks")]
+    verif_max_cells: usize,
+    /// Largest combined depth of the read and write stacks (verification hook)
+    #[cfg(feature = "verif-hooks")]
+    verif_max_frames: usize,
 }
 
 impl BitMachine {
@@ -57,7 +63,25 @@ impl BitMachine {
             read: Vec::with_capacity(program.bounds().extra_frames + analysis::IO_EXTRA_FRAMES),
             write: Vec::with_capacity(program.bounds().extra_frames + analysis::IO_EXTRA_FRAMES),
             source_ty: program.arrow().source.clone(),
+            #[cfg(feature = "verif-hooks")]
+            verif_max_cells: 0,
+            #[cfg(feature = "verif-hooks")]
+            verif_max_frames: 0,
         })
+    }
+
+    /// Verification hook: the maximum number of cells in use and the maximum
+    /// number of frames (read + write) alive at any point so far.
+    #[cfg(feature = "verif-hooks")]
+    pub fn verif_high_water(&self) -> (usize, usize) {
+        (self.verif_max_cells, self.verif_max_frames)
+    }
+
+    /// Verification hook: size in bits of the data buffer and capacity of the
+    /// read stack the machine was created with.
+    #[cfg(feature = "verif-hooks")]
+    pub fn verif_capacity(&self) -> (usize, usize) {
+        (self.data.len() * 8, self.read.capacity())
     }
 
     #[cfg(test)]
@@ -89,6 +113,11 @@ impl BitMachine {
 
         self.write.push(Frame::new(self.next_frame_start, len));
         self.next_frame_start += len;
+        #[cfg(feature = "verif-hooks")]
+        {
+            self.verif_max_cells = self.verif_max_cells.max(self.next_frame_start);
+            self.verif_max_frames = self.verif_max_frames.max(self.read.len() + self.write.len());
+        }
     }
 
     /// Move the active write frame to the read frame stack
